@@ -469,7 +469,17 @@ AttributesImpl::getIndex(const XMLCh* const     qname) const
 void
 AttributesImpl::clear()
 {
-    m_cacheVector.insert(m_cacheVector.end(), m_attributesVector.begin(), m_attributesVector.end());
+    // This is also called while cleaning up after an error, so it
+    // must not fail.  If the cache cannot grow, delete the entries
+    // instead of keeping them.
+    try
+    {
+        m_cacheVector.insert(m_cacheVector.end(), m_attributesVector.begin(), m_attributesVector.end());
+    }
+    catch(...)
+    {
+        deleteEntries(m_attributesVector);
+    }
 
     // Clear everything out.
     m_attributesVector.clear();
